@@ -103,3 +103,63 @@ func ZZ_C06_SnapshotDuringMerge() {
 	zzWellFormed("C06.merge", r)
 	zzReach("C06.merge.done")
 }
+
+// C06 (a snapshot holds the image of the moment it was taken, also when its name had been
+// used before): snapshots a and b with data, a revert to a (b's files stay in the
+// directory, outside the chain), more writes, then a snapshot under a fresh name or
+// under the orphaned name b - retried once when the first attempt is refused and cleans
+// up.  Reverting to the new snapshot reads exactly the image recorded when it was taken.
+func ZZ_C06_NameReuseAfterRevert() {
+	fs := zzInstallFS()
+	_ = fs
+	r, err := zzOpenReplica()
+	zzAssume(err == nil)
+	r.mode = types.RW
+	model := make([]byte, zzBlocks)
+	write := func(rep *Replica, blk int, tag byte) {
+		buf := make([]byte, 4096)
+		buf[0], buf[4095] = tag, tag
+		_, werr := rep.WriteAt(buf, int64(blk)*4096)
+		zzAssert(werr == nil, "C06.reuse.write-failed")
+		model[blk] = tag
+	}
+	write(r, 0, 'A')
+	zzAssume(r.Snapshot("a", true, "t") == nil)
+	imgA := []byte{model[0], model[1]}
+	write(r, 1, 'B')
+	zzAssume(r.Snapshot("b", zzNondetBool("user.b"), "t") == nil)
+	write(r, 0, 'C')
+	rn, rerr := r.Revert("volume-snap-a.img", "t")
+	zzAssume(rerr == nil && rn != nil)
+	r = rn
+	r.mode = types.RW
+	copy(model, imgA)
+	write(r, zzConcretize(zzChoice("blk", 2)), 'D')
+	name := "fresh"
+	if zzNondetBool("reuse-orphaned-name") {
+		name = "b"
+		zzReach("C06.reuse.orphaned-name")
+	}
+	user := zzNondetBool("user.new")
+	serr := r.Snapshot(name, user, "t")
+	if serr != nil {
+		serr = r.Snapshot(name, user, "t") // the first refusal removed the leftovers
+	}
+	if serr != nil {
+		zzReach("C06.reuse.refused")
+		return
+	}
+	want := []byte{model[0], model[1]}
+	write(r, 1, 'E')
+	r2, verr := r.Revert(GenerateSnapshotDiskName(name), "t")
+	zzAssert(verr == nil && r2 != nil, "C06.reuse.revert-to-the-new-snapshot-failed")
+	if r2 == nil {
+		return
+	}
+	rb := make([]byte, 2*4096)
+	_, e := r2.ReadAt(rb, 0)
+	zzAssert(e == nil, "C06.reuse.read-failed")
+	zzAssert(rb[0] == want[0] && rb[4096] == want[1], "C06.reuse.snapshot-does-not-hold-the-image-of-the-moment-it-was-taken")
+	zzWellFormed("C06.reuse", r2)
+	zzReach("C06.reuse.done")
+}
